@@ -604,7 +604,28 @@ def judge_output(case):
             viol.append(V('C07|%s|fails-but-relation-holds|output' % neg, desc))
         if p[0] == n[0] and p[0] in ('silent', 'failing'):
             viol.append(V('C07|%s|negation-both-%s|output' % (pos, 'pass' if p[0] == 'silent' else 'fail'), desc))
-    return Result(dedupe(viol), True, ['family=output'] + (['output-of-kept-result=' + kept] if kept else []))
+    if case.get('regex') and not err:
+        # the regex forms: the pattern (a string, or compiled by the instructor with flags of their own) comes first
+        source = re.escape(expected)
+        pattern = source if case['regex'] == 'str' else re.compile(source)
+        found = re.search(source, chomped) is not None
+        fresh_fb()
+        p = run_assertion('assert_output_regex', (pattern, execution), {})
+        fresh_fb()
+        n = run_assertion('assert_not_output_regex', (pattern, execution), {})
+        desc = 'assert_output_regex(%s, call(printer, %r))' % ('%r' % source if case['regex'] == 'str' else 're.compile(%r)' % source, printed)
+        for name, out in (('assert_output_regex', p), ('assert_not_output_regex', n)):
+            if out[0].startswith('raises') or out[0] == 'inconsistent':
+                viol.append(V('C07|%s|%s|output' % (name, out[0]), '%s: %s %s' % (desc, out[0], out[1])))
+        if found and p[0] == 'failing':
+            viol.append(V('C07|assert_output_regex|fails-but-relation-holds|%s-pattern' % case['regex'], desc))
+        if not found and p[0] == 'silent':
+            viol.append(V('C07|assert_output_regex|silent-but-relation-false|%s-pattern' % case['regex'], desc))
+        if found and n[0] == 'silent':
+            viol.append(V('C07|assert_not_output_regex|silent-but-relation-false|%s-pattern' % case['regex'], desc))
+        if not found and n[0] == 'failing':
+            viol.append(V('C07|assert_not_output_regex|fails-but-relation-holds|%s-pattern' % case['regex'], desc))
+    return Result(dedupe(viol), True, ['family=output'] + (['output-of-kept-result=' + kept] if kept else []) + (['output-regex=' + case['regex']] if case.get('regex') else []))
 
 
 UNIT_FUNCS = {
@@ -811,6 +832,9 @@ def table(tier):
              'Die Straße ist lang', 'STRASSE', 'MASSE: 12 kg', 'maße', 'Η ΟΔΟΣ', 'οδοσ']
     for printed, expected, exact in itertools.product(texts, texts, (False, True)):
         yield {'kind': 'output', 'printed': printed, 'expected': expected, 'exact': exact}
+        if exact:
+            yield {'kind': 'output', 'printed': printed, 'expected': expected, 'exact': exact, 'regex': 'str'}
+            yield {'kind': 'output', 'printed': printed, 'expected': expected, 'exact': exact, 'regex': 'compiled'}
         if exact or printed in texts[:6]:
             yield {'kind': 'output', 'printed': printed, 'expected': expected, 'exact': exact, 'kept': 'first'}
             yield {'kind': 'output', 'printed': printed, 'expected': expected, 'exact': exact, 'kept': 'later'}
